@@ -212,6 +212,7 @@ class Runner:
         self.sample_budget = 2
         self.prime_body = None          # another harness body run first in every path (its clauses muted): call-history clause, see prime()
         self.prime_inputs = None
+        self.prime_script = None        # replay text of the priming call (template over the priming inputs); default: a clause script
         self.witness_prelude = ''       # python source run before every witness expression (helpers of the harness)
         self.witness_setup = None       # template that defines the names the witness expressions use from the concrete inputs
 
@@ -423,6 +424,9 @@ class Runner:
 
     def _prime_history(self, model):
         """the priming call of this path as a replayable history entry (a clause script instantiated with the priming inputs)"""
+        if self.prime_script is not None:
+            ins = {k: repr(conc(model, v)) for k, v in (self.prime_inputs or {}).items()}
+            return [('script', self.prime_script.format(**ins), None)]
         if not self.prime_inputs:
             return None
         ins = {k: repr(conc(model, v)) for k, v in self.prime_inputs.items()}
